@@ -323,10 +323,14 @@ def check_resistive(ctx, A, w, plist):
     if n < 3 or not graphs.connected(A) or A.sum() == 0:
         return
     R = np.zeros((n, n))
+    asym = ctx.rng.random() < 0.5     # direction-dependent resistances
     for i in range(n):
         for j in range(i):
             if A[i, j]:
                 R[i, j] = R[j, i] = ctx.rng.randint(1, 16) / 2.0
+                if asym:
+                    R[j, i] = ctx.rng.randint(1, 16) / 2.0
+    ctx.stat("resistive_asymmetric=%s" % asym)
     key = {"A": A.tolist(), "R": R.tolist()}
 
     def build(Rm, Am):
